@@ -1,6 +1,7 @@
 ID='C11'
 FILE='runtime/internal/lib/runtime/sema_llgo.go'
 V='runtime/internal/lib/sync/atomic/value.go'
+ZT='runtime/internal/runtime/z_thread.go'
 MUTANTS=[
  ('notify-compare-not-wrap-safe', 'for int32(latomic.LoadUint32(&l.notify)-t) <= 0 {', 'for latomic.LoadUint32(&l.notify) <= t {'),
  ('revert-sema-retry', '\t\t\t\t// Lost the race for one token; others may be left and\n\t\t\t\t// nobody will signal for them.\n\t\t\t\tcontinue\n', ''),
@@ -18,4 +19,7 @@ MUTANTS=[
  ('value-load-no-inprogress-check', 'if typ == nil || typ == unsafe.Pointer(&firstStoreInProgress) {', 'if typ == nil {', 0, V),
  ('value-cas-plain-store', 'return CompareAndSwapPointer(&vp.data, data, np.data)', 'StorePointer(&vp.data, np.data)\n\t\treturn true', 0, V),
  ('value-swap-not-atomic', 'op.typ, op.data = np.typ, SwapPointer(&vp.data, np.data)', 'op.typ, op.data = np.typ, LoadPointer(&vp.data)\n\t\tStorePointer(&vp.data, np.data)', 0, V),
+ # F12 reverted in two halves (layer B only: run with ARGS --tier quick)
+ ('revert-thread-detach', '\tpthread.Detach(*th)\n', '', 0, ZT),
+ ('revert-create-failure-fatal', '\t\tfatal("failed to create new OS thread")\n\t\tc.Exit(2)\n', '', 0, ZT),
 ]
